@@ -156,11 +156,10 @@ func (m *ServiceMap) syncTLSOptionsFromRootDomain() {
 
 			rootService := m.ServiceForHost(host)
 			if rootService != nil {
-				service.options.TLSEnabled = rootService.options.TLSEnabled
-				service.options.TLSRedirect = rootService.options.TLSRedirect
+				rootOptions := rootService.currentOptions()
+				service.setTLSOptions(rootOptions.TLSEnabled, rootOptions.TLSRedirect)
 			} else {
-				service.options.TLSEnabled = defaultServiceOptions.TLSEnabled
-				service.options.TLSRedirect = defaultServiceOptions.TLSRedirect
+				service.setTLSOptions(defaultServiceOptions.TLSEnabled, defaultServiceOptions.TLSRedirect)
 			}
 		}
 	}
